@@ -176,10 +176,38 @@ def stopped_before_deployment(check, j):
     return g, [{"kind": "conn-close", "src": "S", "nth": 2, "action": "open:s_done"}]
 
 
+def stopped_while_enabling(check, j):
+    """X waits for its `enabled` value (it comes from a slow step) when its stop condition fires: X is closed, it was never
+    disabled - a step that accepts X's success or X's disabled output (!ordisabled), or that is enabled by X's enabling result,
+    must not run."""
+    from ..model import OrDisabled
+    rng = random.Random(derive_seed(check.seed, "c04-preenable", j))
+    S = gen.plugin_step("S", Expr(In("tag")))
+    slow = gen.plugin_step("slow", Expr(In("tag")))
+    X = gen.plugin_step("X", Expr(In("tag")), enabled=Expr(Bin("==", gen.tagref("slow").node, Lit("slow(T1)"))), stop_if=Expr(Ref("S", "outputs", "success", "tag")))
+    X.stop_mode = "enabling"
+    how = rng.choice(["wait_for-ordisabled", "input-ordisabled", "enabled-by-enabling-result"])
+    if how == "wait_for-ordisabled":
+        H = gen.plugin_step("H", Expr(In("tag")), wait_for=OrDisabled(Ref("X", "outputs", "success")))
+    elif how == "input-ordisabled":
+        H = gen.plugin_step("H", Expr(In("tag")), extra_input={"a": OrDisabled(Ref("X", "outputs", "success"))})
+    else:
+        H = gen.plugin_step("H", Expr(In("tag")), enabled=Expr(Ref("X", "enabling", "resolved", "enabled")))
+    steps = [S, slow, X, H]
+    rng.shuffle(steps)
+    outs = {"x_closed": {"c": Expr(Ref("X", "closed", "result")), "s": gen.tagref("slow")}, "handler_ran": {"h": gen.tagref("H"), "s": gen.tagref("slow")}, "x_ran": {"x": gen.tagref("X")},
+            "x_disabled": {"m": Expr(Ref("X", "disabled", "output", "message")), "s": gen.tagref("slow")}}
+    scripts = gen.make_scripts(steps, {})
+    scripts["slow"]["exec"] = {"outcome": "success", "gate": "s_done"}
+    prog = Program(steps, outs, gen.BASE_INPUT)
+    g = {"program": prog, "scripts": scripts, "input": {"tag": "T1"}, "shape": "stopped-while-waiting-to-be-enabled/" + how, "outcome": {"X": "stopped-while-enabling"}}
+    return g, [{"kind": "conn-close", "src": "S", "nth": 2, "action": "open:s_done"}]
+
+
 def run(check):
     check.rule = ("a failing (error/alt/crash/drop/deploy failure) or disabled step placed at every position of 6 shapes (enumerated), the two-hop "
                   "stop-before-start construction, a loop item ending in another declared output with a step needing the loop's success, a step enabled by the enabling result "
-                  "of a disabled step, plus generated programs; delays between failure notification and dependants via random plans; "
+                  "of a disabled step, a step stopped while it waits for its deployment configuration or for its `enabled` value (with consumers of its deploy_failed / disabled / enabling results), plus generated programs; delays between failure notification and dependants via random plans; "
                   "oracle: set of plugin executions logged at the plugin boundary is a subset of the reference's may-run set, disabled steps expose "
                   "disabled.output through !ordisabled; non-trivial = at least one step must not run; distinct = (shape@position:kind, executed set)")
     check.assumptions = ["one-hop stop_if (stop source also feeds the target's input) is schedule dependent and not asserted"]
@@ -221,6 +249,10 @@ def run(check):
     for j in range(check.pick(12, 100)):
         g, trig = stopped_before_deployment(check, j)
         case, sem = runfam.build_case("c04-d%04d" % j, g, triggers=trig)
+        items.append((case, sem, g))
+    for j in range(check.pick(18, 120)):
+        g, trig = stopped_while_enabling(check, j)
+        case, sem = runfam.build_case("c04-n%04d" % j, g, triggers=trig)
         items.append((case, sem, g))
     for j, (g, plan) in enumerate(targeted):
         opts = {"plan": plan, "plan_scope": "execute"} if plan else {}
